@@ -9,7 +9,7 @@
      Authenticate/Network/Open    -> LCP is Opened
      dead                         -> not in Network/Open
    [Inv acc s mn] adds the sticky ghost [acc] ("an accept was honoured since the last PADR"):
-     mok -> acc,   and   not acc -> no pool lease and no IPv4 address. *)
+     mok -> acc,   and   not acc -> no pool lease, no IPv4 address and no IPv6 lease state at all. *)
 From OV Require Import Common.Base C03.Model C03.Proofs.
 
 (* ------------------------------------------------------------------ *)
@@ -81,11 +81,11 @@ Record GI (s : sess) (mn : mon) : Prop := mkGI {
 Record Inv (acc : bool) (s : sess) (mn : mon) : Prop := mkInv {
   inv_gi : GI s mn;
   inv_acc : mok mn = true -> acc = true;
-  inv_none : acc = false -> alloc_pool s = false /\ cur4 s = ANone }.
+  inv_none : acc = false -> alloc_pool s = false /\ cur4 s = ANone /\ v6 s = v60 }.
 
 (* what the invariant looks at *)
 Definition core (s : sess) :=
-  (live s, ph s, lcp s, ipcp s, ip6cp s, pend s, cur4 s, alloc_pool s).
+  (live s, ph s, lcp s, ipcp s, ip6cp s, pend s, cur4 s, alloc_pool s, v6 s).
 Lemma Inv_core : forall acc s s' mn, core s' = core s -> Inv acc s mn -> Inv acc s' mn.
 Proof.
   intros acc s s' mn E [[g1 g2 g3 g4 g5] a1 a2]. destruct s, s'. unfold core in E. cbn in *.
@@ -163,7 +163,7 @@ Proof.
   cbn [forallb] in H. apply andb_true_iff in H. destruct H as [Ha H].
   destruct (IH (ncp_act i n a m) H) as [E1 E2]. rewrite E1, E2.
   destruct a; try discriminate; cbn [ncp_act]; auto.
-  destruct m as [s ? ? ? ?], s, n; cbn; auto.
+  destruct m as [s ? ? ? ? ?], s, n; cbn; auto.
 Qed.
 Lemma ncp_apply_silent : forall i n g m, forallb silent_a (snd (g (get_ncp n (ms m)))) = true ->
   mo (ncp_apply i n g m) = mo m /\
@@ -243,10 +243,10 @@ Proof.
 Qed.
 
 (* onLCPDown establishes the invariant from (almost) nothing *)
-Lemma on_lcp_down_T : forall rfc td i acc,
-  T (fun s mn => acc = false -> alloc_pool s = false /\ cur4 s = ANone) (on_lcp_down (mkV3 true rfc td) i) (Inv acc).
+Lemma on_lcp_down_T : forall rfc td hl i acc,
+  T (fun s mn => acc = false -> alloc_pool s = false /\ cur4 s = ANone /\ v6 s = v60) (on_lcp_down (mkV4 true rfc td hl) i) (Inv acc).
 Proof.
-  intros rfc td i acc mn0 m H. unfold on_lcp_down. cbn [vrep].
+  intros rfc td hl i acc mn0 m H. unfold on_lcp_down. cbn [vrep].
   set (m0 := upd (set_pend None PtNone) m).
   set (m1 := ncp_apply i Ipcp fsm_down m0).
   set (m2 := ncp_apply i Ip6cp fsm_down m1).
@@ -295,7 +295,7 @@ Proof.
     intros k K. destruct (g3 k K) as [L|[_ L]]; auto. contradiction. }
   destruct (auth_chap (ms (emit GLcpUp (upd (set_ph PAuth) (upd (set_lcp f') m))))); auto.
   apply W_emit_plain; [reflexivity|]. eapply W_upd; [exact H1|]. intros mn K.
-  eapply Inv_core; [|exact K]. destruct m as [s ? ? ? ?], s; reflexivity.
+  eapply Inv_core; [|exact K]. destruct m as [s ? ? ? ? ?], s; reflexivity.
 Qed.
 
 Lemma lcp_apply_Inv : forall v i g acc, vrep v = true -> lcp_okg g -> T (Inv acc) (lcp_apply v i g) (Inv acc).
@@ -327,22 +327,65 @@ Proof.
   constructor; [constructor|..]; cbn; auto.
 Qed.
 
+(* the IPv6 lease state is invisible to Rn *)
+Lemma Rn_set_v6 : forall pe s mn x, Rn pe s mn -> Rn pe (set_v6 x s) mn.
+Proof. intros pe s mn x K. destruct s; exact K. Qed.
+Lemma Rn_on_fam : forall pe s mn pdf g, Rn pe s mn -> Rn pe (on_fam pdf g s) mn.
+Proof. intros. unfold on_fam. apply Rn_set_v6; auto. Qed.
+Lemma W_on_fam_Rn : forall pe mn0 m pdf g, W (Rn pe) mn0 m -> W (Rn pe) mn0 (upd (on_fam pdf g) m).
+Proof. intros. eapply W_upd; [eassumption|]. intros mn K. apply Rn_on_fam; auto. Qed.
+Lemma alloc6_Rn : forall pe pdf mn0 m k m2,
+  W (Rn pe) mn0 m -> alloc6 pdf m = Some (k, m2) -> W (Rn pe) mn0 m2.
+Proof.
+  intros pe pdf mn0 m k m2 H E. unfold alloc6 in E. destruct (pool_of pdf (mfree6 m)); [discriminate|].
+  inversion E; subst; clear E.
+  apply W_emit_svc; [reflexivity|intros mn K; apply K|].
+  destruct m as [s n0 fr0 q0 o0 f60]. unfold W. cbn [ms mo]. eapply Wl_imp; [exact H|].
+  intros mn K. apply Rn_on_fam; auto.
+Qed.
+
+Lemma start_v4_Rn : forall pe, T (Rn pe) start_v4 (Rn pe).
+Proof.
+  intros pe mn0 m H. unfold start_v4.
+  destruct (cur4 (ms m)); auto.
+  - destruct (mfree m); auto.
+    apply W_emit_svc; [reflexivity|intros mn K; apply K|].
+    destruct m as [s n0 fr0 q0 o0 f60]. unfold W. cbn [ms mo]. eapply Wl_imp; [exact H|].
+    intros mn K. destruct s; exact K.
+  - destruct (live (ms m)); auto. destruct (mfree m); auto.
+    apply W_emit_svc; [reflexivity|intros mn K; apply K|].
+    destruct m as [s n0 fr0 q0 o0 f60]. exact H.
+Qed.
+Lemma rereserve6_Rn : forall pe pdf, T (Rn pe) (rereserve6 pdf) (Rn pe).
+Proof.
+  intros pe pdf mn0 m H. unfold rereserve6. destruct (pool_of pdf (mfree6 m)); auto.
+  apply W_emit_svc; [reflexivity|intros mn K; apply K|].
+  destruct m as [s n0 fr0 q0 o0 f60]. exact H.
+Qed.
+Lemma start_na_Rn : forall pe, T (Rn pe) start_na (Rn pe).
+Proof.
+  intros pe mn0 m H. unfold start_na.
+  destruct (xs (na (v6 (ms m)))).
+  - destruct (live (ms m)); auto. apply rereserve6_Rn; auto.
+  - destruct (alloc6 false m) as [[k m2]|] eqn:E; auto.
+    apply W_on_fam_Rn. eapply alloc6_Rn; eauto.
+Qed.
+Lemma start_pd_Rn : forall pe, T (Rn pe) start_pd (Rn pe).
+Proof.
+  intros pe mn0 m H. unfold start_pd.
+  destruct (xs (pd (v6 (ms m)))); auto. destruct (live (ms m)); auto. apply rereserve6_Rn; auto.
+Qed.
+Lemma start_ncps_Rn : forall v i pe, T (Rn pe) (start_ncps v i) (Rn pe).
+Proof.
+  intros v i pe mn0 m1 H1. unfold start_ncps.
+  apply ncp_apply_Rn. apply ncp_apply_Rn.
+  destruct (cur4 (ms m1)); auto.
+  all: apply ncp_apply_Rn; apply ncp_apply_Rn; (eapply W_upd; [exact H1|]); intros mn K; destruct (ms m1); exact K.
+Qed.
 Lemma start_ncp_Rn : forall v i pe, T (Rn pe) (start_ncp v i) (Rn pe).
 Proof.
   intros v i pe mn0 m H. unfold start_ncp.
-  set (m1 := match cur4 (ms m) with
-             | ANone => match mfree m with
-                        | S fr => emit GAlloc (mkM (set_addr (static_attr (ms m)) APool (assigned4 (ms m)) (acked4 (ms m)) true (ms m)) (mn m) fr (mq m) (mo m))
-                        | O => m end
-             | _ => m end).
-  assert (H1 : W (Rn pe) mn0 m1).
-  { unfold m1. destruct (cur4 (ms m)); auto. destruct (mfree m); auto.
-    apply W_emit_svc; [reflexivity|intros mn K; apply K|].
-    destruct m as [s n0 fr0 q0 o0]. unfold W. cbn [ms mo]. eapply Wl_imp; [exact H|].
-    intros mn K. destruct s; exact K. }
-  clearbody m1. apply ncp_apply_Rn. apply ncp_apply_Rn.
-  destruct (cur4 (ms m1)); auto.
-  all: apply ncp_apply_Rn; apply ncp_apply_Rn; (eapply W_upd; [exact H1|]); intros mn K; destruct (ms m1); exact K.
+  apply start_ncps_Rn. apply start_pd_Rn. apply start_na_Rn. apply start_v4_Rn. exact H.
 Qed.
 
 Lemma Inv_set_pend_none : forall acc s mn, Inv acc s mn -> Inv acc (set_pend None PtNone s) mn.
@@ -367,7 +410,14 @@ Proof.
   { unfold m1. eapply W_upd; [exact H|]. intros mn ([[g1 g2 g3 g4 g5] a1 a2] & K & Ep & L).
     destruct (ms m); cbn in *. subst. unfold P0; cbn. repeat split; auto. }
   assert (Epe : pend (ms m1) = pend (ms m)) by (unfold m1; destruct m as [s n0 fr0 q0 o0], s; reflexivity).
-  rewrite <- Epe in H1. clearbody m1.
+  rewrite <- Epe in H1. clearbody m1. clear Epe.
+  assert (H1b : W (P0 (pend (ms (new_ctx m1)))) mn0 (new_ctx m1)).
+  { unfold new_ctx. replace (pend (ms (upd _ (upd _ m1)))) with (pend (ms m1))
+      by (destruct m1 as [s1 ? ? ? ? ?], s1; reflexivity).
+    assert (V : forall pe s mn x, P0 pe s mn -> P0 pe (set_v6 x s) mn) by (intros pe s mn x K; destruct s; exact K).
+    eapply (W_upd (P0 (pend (ms m1))) (P0 (pend (ms m1)))); [eapply (W_upd (P0 (pend (ms m1))) (P0 (pend (ms m1)))); [exact H1|]|];
+      intros mn K; unfold on_fam; apply V; exact K. }
+  clear H1. revert H1b. generalize (new_ctx m1). clear m1. intros m1 H1.
   set (m2 := match pty (ms m1) with PtPap => emit (OPap 2) m1 | PtChap => emit (OChap 3) m1 | PtNone => m1 end).
   assert (H2 : W (P0 (pend (ms m1))) mn0 m2).
   { unfold m2. destruct (pty (ms m1)); auto; apply W_emit_plain; auto. }
@@ -390,10 +440,10 @@ Qed.
 
 (* ------------------------------------------------------------------ *)
 (* termination (PADT, dead peer): the monitor has been reset *)
-Lemma terminate_Inv : forall acc s mn1 n fr q,
-  Inv acc s mn1 -> W (Inv acc) mon0 (terminate (upd (set_live false) (mkM s n fr q []))).
+Lemma terminate_Inv : forall acc s mn1 n fr q f6,
+  Inv acc s mn1 -> W (Inv acc) mon0 (terminate (upd (set_live false) (mkM s n fr q [] f6))).
 Proof.
-  intros acc s mn1 n fr q [[g1 g2 g3 g4 g5] a1 a2]. unfold terminate, W. cbn [upd emit ms mo mn mfree mq].
+  intros acc s mn1 n fr q f6 [[g1 g2 g3 g4 g5] a1 a2]. unfold terminate, W. cbn [upd emit ms mo mn mfree mq].
   apply Wl_plain; [reflexivity|]. apply Wl_plain; [reflexivity|]. exists mon0. split; [reflexivity|].
   destruct s; cbn in *. destruct (in_net ph) eqn:E; cbn.
   all: constructor; [constructor|..]; cbn; auto; try discriminate.
@@ -405,7 +455,7 @@ Lemma terminate_T : forall acc, T (Inv acc) (fun m => terminate (upd (set_live f
 Proof.
   intros acc mn0 m (mx & Hm & [[g1 g2 g3 g4 g5] a1 a2]). unfold terminate, W. cbn [upd emit ms mo mn mfree mq].
   apply Wl_plain; [reflexivity|]. apply Wl_plain; [reflexivity|]. exists mx. split; [exact Hm|].
-  destruct m as [s n0 fr q o]; destruct s; cbn in *. destruct (in_net ph) eqn:E; cbn.
+  destruct m as [s n0 fr q o f6]; destruct s; cbn in *. destruct (in_net ph) eqn:E; cbn.
   all: constructor; [constructor|..]; cbn; auto; try discriminate.
   all: try (intros [K|K]; discriminate).
 Qed.
@@ -421,6 +471,44 @@ Qed.
 Lemma Inv_core_upd : forall acc (f : sess -> sess) mn0 m,
   (forall s, core (f s) = core s) -> W (Inv acc) mn0 m -> W (Inv acc) mn0 (upd f m).
 Proof. intros acc f mn0 m Hf H. eapply W_upd; [exact H|]. intros mn K. eapply Inv_core; [apply Hf|exact K]. Qed.
+
+(* DHCPv6 over PPP in Network/Open: allocations, answers and dataplane bindings are service of an accepted session;
+   the IPv6 lease state is invisible to Rn *)
+Lemma resolve6_Rn : forall pe pdf mn0 m, W (Rn pe) mn0 m -> W (Rn pe) mn0 (fst (resolve6 pdf m)).
+Proof.
+  intros pe pdf mn0 m H. unfold resolve6. destruct (xc (fam_of pdf (v6 (ms m)))); auto.
+  destruct (alloc6 pdf m) as [[k m2]|] eqn:E; auto. cbn [fst].
+  apply W_on_fam_Rn. eapply alloc6_Rn; eauto.
+Qed.
+Lemma Rn_reserve6 : forall pe s mn pdf named, Rn pe s mn -> Rn pe (reserve6 pdf named s) mn.
+Proof. intros. unfold reserve6. apply Rn_on_fam; auto. Qed.
+Lemma W_set_Rn : forall pe mn0 m s', (forall mn, Rn pe (ms m) mn -> Rn pe s' mn) ->
+  W (Rn pe) mn0 m -> W (Rn pe) mn0 (upd (fun _ => s') m).
+Proof. intros pe mn0 m s' K H. eapply W_upd; [exact H|]. exact K. Qed.
+Ltac rn_emits :=
+  repeat first [ apply W_emit_svc; [reflexivity | (let K := fresh in intros ? K; apply K) |]
+               | apply W_emit_plain; [reflexivity|] ].
+Lemma dh6_Rn : forall pe req, T (Rn pe) (dh6 req) (Rn pe).
+Proof.
+  intros pe req mn0 m H. unfold dh6.
+  pose proof (resolve6_Rn pe false mn0 m H) as H1.
+  destruct (resolve6 false m) as [m1 n_na]. cbn [fst] in H1.
+  pose proof (resolve6_Rn pe true mn0 m1 H1) as H2.
+  destruct (resolve6 true m1) as [m2 n_pd]. cbn [fst] in H2. clear H H1.
+  assert (S1 : forall mn, Rn pe (ms m2) mn -> Rn pe (reserve6 true n_pd (reserve6 false n_na (ms m2))) mn)
+    by (intros; repeat apply Rn_reserve6; auto).
+  destruct (xc (na (v6 (ms m2)))), (xc (pd (v6 (ms m2)))); auto; destruct req.
+  all: repeat first
+       [ match goal with
+         | |- W _ _ (match ?x with Some _ => _ | None => _ end) => destruct x
+         | |- W _ _ (if ?x then _ else _) => destruct x
+         end
+       | apply W_emit_svc; [reflexivity | (let K := fresh in intros ? K; apply K) |]
+       | apply W_emit_plain; [reflexivity|] ].
+  all: apply W_set_Rn; auto.
+  all: intros mn K; repeat apply Rn_on_fam; auto.
+  all: destruct (reserved6 false (ms m2) && reserved6 true (ms m2)); auto.
+Qed.
 
 Lemma handle_frame_Inv : forall v i f acc, vrep v = true ->
   T (Inv acc) (handle_frame v i f) (Inv acc).
@@ -459,13 +547,12 @@ Proof.
   - (* unknown protocol *) apply W_emit_plain; auto.
   - (* DHCPv6 SOLICIT over PPP *)
     destruct (in_net (ph (ms m))) eqn:E; auto. destruct (fs (ip6cp (ms m))); auto. destruct (ip6cp_open (ms m)); auto.
-    apply W_emit_svc; auto. intros mn K. apply (gi_net _ _ (inv_gi _ _ _ K) E).
+    destruct H as (mn & Hm & K). destruct (Inv_Rn _ _ _ K E) as [R Ha]. subst acc.
+    eapply W_imp; [apply (dh6_Rn None false); exists mn; split; eauto|]. intros; apply Rn_Inv; auto.
   - (* DHCPv6 REQUEST over PPP *)
     destruct (in_net (ph (ms m))) eqn:E; auto. destruct (fs (ip6cp (ms m))); auto. destruct (ip6cp_open (ms m)); auto.
-    assert (G : forall mm, ms mm = ms m -> forall mn, Inv acc (ms mm) mn -> mok mn = true).
-    { intros mm Em mn K. rewrite Em in K. apply (gi_net _ _ (inv_gi _ _ _ K) E). }
-    apply W_emit_svc; [reflexivity|apply G; destruct m; reflexivity|].
-    apply W_emit_svc; [reflexivity|apply G; reflexivity|exact H].
+    destruct H as (mn & Hm & K). destruct (Inv_Rn _ _ _ K E) as [R Ha]. subst acc.
+    eapply W_imp; [apply (dh6_Rn None true); exists mn; split; eauto|]. intros; apply Rn_Inv; auto.
 Qed.
 
 Lemma handle_timer_Inv : forall v i t acc, vrep v = true ->
@@ -484,10 +571,10 @@ Proof.
 Qed.
 
 (* PADR: a fresh session; the monitor and the ghost have been reset *)
-Lemma open_session_Inv : forall v i s n fr q, vrep v = true ->
-  W (Inv false) mon0 (open_session v i (mkM s n fr q [])).
+Lemma open_session_Inv : forall v i s n fr q f6, vrep v = true ->
+  W (Inv false) mon0 (open_session v i (mkM s n fr q [] f6)).
 Proof.
-  intros v i s n fr q Hv. unfold open_session.
+  intros v i s n fr q f6 Hv. unfold open_session.
   apply lcp_apply_Inv; auto. apply fsm_open_ok. apply lcp_apply_Inv; auto. apply fsm_up_ok.
   apply W_emit_plain; [reflexivity|]. exists mon0. split; [reflexivity|]. cbn.
   constructor; [constructor|..]; cbn; auto; try discriminate.
